@@ -83,7 +83,7 @@ def run_worker(pid: str, tier: str, camp_name: str, shard: int, nshards: int, ou
         except Violation as v:
             if state["fail_t"] is None:
                 state["fail_t"] = time.time()
-            state["fail"] = {"case": case, "check": v.check, "detail": v.detail}
+            state["fail"] = {"case": case, "check": v.check, "detail": v.detail, "hashseed": os.environ.get("PYTHONHASHSEED", "0")}
             raise
         if state["fail"] is None:
             ctx.done(case, info, camp.sample_view)
@@ -150,10 +150,12 @@ def spawn_workers(pid: str, tier: str, camp: Campaign, workdir: str) -> List[Dic
             k = pending.pop(0)
             out = os.path.join(workdir, f"{camp.name}-{k}.json")
             log = os.path.join(workdir, f"{camp.name}-{k}.log")
+            env_k = dict(env)
+            env_k["PYTHONHASHSEED"] = str(k)  # shard k runs under hash seed k: symbol numberings differ between shards
             p = subprocess.Popen(
                 [PY, "-m", "hv.run", pid, "--tier", tier, "--worker", camp.name, "--shard", str(k),
                  "--nshards", str(nshards), "--out", out],
-                cwd=VERIF_ROOT, env=env, stdout=open(log, "w"), stderr=subprocess.STDOUT,
+                cwd=VERIF_ROOT, env=env_k, stdout=open(log, "w"), stderr=subprocess.STDOUT,
             )
             running.append((k, p, out, log))
         time.sleep(0.05)
@@ -211,12 +213,23 @@ def write_failure(pid: str, camp_name: str, failure: Dict[str, Any]) -> str:
     path = os.path.join(d, f"{pid}-{camp_name}-{chk}-{case_hash(failure['case'])}.json")
     with open(path, "w") as fh:
         json.dump({"property": pid, "campaign": camp_name, "check": failure["check"],
-                   "detail": failure["detail"], "case": failure["case"]}, fh, indent=1, default=str)
+                   "detail": failure["detail"], "hashseed": str(failure.get("hashseed", "0")), "case": failure["case"]}, fh, indent=1, default=str)
     return os.path.relpath(path, VERIF_ROOT) if path.startswith(VERIF_ROOT + os.sep) else path
 
 
 def replay_file(mod, tier: str, path: str) -> Optional[Violation]:
     data = json.load(open(path))
+    hs = str(data.get("hashseed", "0"))
+    if hs != os.environ.get("PYTHONHASHSEED", "0"):
+        # the case was found under another hash seed (symbol numbering): replay it in an interpreter with that seed
+        env = dict(os.environ, PYTHONHASHSEED=hs, PYTHONPATH=VERIF_ROOT + os.pathsep + os.environ.get("PYTHONPATH", ""))
+        r = subprocess.run([PY, "-m", "hv.replay", path], cwd=VERIF_ROOT, env=env, capture_output=True, text=True)
+        if r.returncode == 1:
+            line = next((l for l in r.stdout.splitlines() if l.strip().startswith("check=")), "check=? detail=")
+            return Violation(line.strip().split(" ")[0].replace("check=", ""), line.strip())
+        if r.returncode != 0:
+            raise HarnessError(f"replay of {path} failed: {r.stderr[-500:]}")
+        return None
     camp = find_campaign(mod, tier, data["campaign"])
     try:
         camp.check(data["case"])
